@@ -302,7 +302,9 @@ fn laws(out: &mut Out, seed: u64, thorough: bool) {
 fn noise(out: &mut Out, rng: &mut Sm, thorough: bool) {
     type PS64 = ParallelSum<Field64, Mul>;
     type PS128 = ParallelSum<Field128, Mul>;
-    let eps: Vec<(u32, u32)> = vec![(1, 2), (1, 1), (2, 1), (1, 10), (7, 3)];
+    // the last two make the scale exceed the modulus (Field64, resp. both fields): the noise is then
+    // routinely below -p or above p and has to be reduced, not merely shifted, into the field
+    let eps: Vec<(u128, u128)> = vec![(1, 2), (1, 1), (2, 1), (1, 10), (7, 3), (1, 1 << 70), (3, u128::MAX)];
     let reps = if thorough { 12 } else { 3 };
     for &(en, ed) in &eps {
         let strategy = PureDpDiscreteLaplace::from_budget(PureDpBudget::new(Rational::from_unsigned(en, ed).unwrap()).unwrap());
@@ -366,16 +368,20 @@ fn noise(out: &mut Out, rng: &mut Sm, thorough: bool) {
 }
 
 #[allow(clippy::too_many_arguments)]
-fn noise_case<F: prio::field::NttFriendlyFieldElement>(out: &mut Out, field: &str, kind: &str, en: u32, ed: u32, before: &[F], after: &[F], tape: &Tape, ok: bool)
+fn noise_case<F: prio::field::NttFriendlyFieldElement>(out: &mut Out, field: &str, kind: &str, en: u128, ed: u128, before: &[F], after: &[F], tape: &Tape, ok: bool)
 where
     F::Integer: Into<u128>,
 {
     let ints = |v: &[F]| v.iter().map(|x| { let i: u128 = F::Integer::from(*x).into(); i.to_string() }).collect::<Vec<_>>().join(",");
     out.count(&format!("noise.{}", kind.split(':').next().unwrap()));
+    let line = format!("dp noise {} {} {} {} {} {}", field, kind, en, ed, ints(before), hex(&tape.data[..(tape.pos + 64).min(tape.data.len())]));
+    // every integer has a residue modulo p: with a positive budget adding noise has no reason to fail
+    out.oracle(ok, || line.chars().take(160).collect::<String>(), || "adding noise to the aggregate share failed (or panicked)".into());
     if ok {
-        out.case(format!("dp noise {} {} {} {} {} {}", field, kind, en, ed, ints(before), hex(&tape.data[..(tape.pos + 64).min(tape.data.len())])), format!("ok {} {}", ints(after), tape.pos));
+        out.case(line, format!("ok {} {}", ints(after), tape.pos));
     } else {
         out.count("noise.failed");
+        out.case(line, "err".into());
     }
     let _ = enc::<F>;
 }
